@@ -1,0 +1,194 @@
+//go:build verif
+
+package bbolt
+
+import (
+	"unsafe"
+
+	"go.etcd.io/bbolt/internal/common"
+	fl "go.etcd.io/bbolt/internal/freelist"
+)
+
+// Verification hooks (build tag "verif"): add-only instrumentation used by the
+// external verification harness. With the tag off, verif_hooks_off.go provides
+// no-op twins.
+
+// VerifIOHook, when set, is called before every file-mutating or mapping
+// operation: kind is one of "write", "sync", "truncate", "fsync", "mmap".
+// A non-nil return value is reported as the error of that operation and the
+// operation itself is skipped.
+var VerifIOHook func(db *DB, kind string, off int64, data []byte) error
+
+// VerifFLHook, when set, receives every call made to the database's freelist.
+var VerifFLHook func(db *DB, ev string, a, b, c uint64)
+
+func verifIO(db *DB, kind string, off int64, data []byte) error {
+	if h := VerifIOHook; h != nil {
+		return h(db, kind, off, data)
+	}
+	return nil
+}
+
+func verifWrapOps(db *DB) {
+	inner := db.ops.writeAt
+	db.ops.writeAt = func(b []byte, off int64) (int, error) {
+		if err := verifIO(db, "write", off, b); err != nil {
+			return 0, err
+		}
+		return inner(b, off)
+	}
+}
+
+type verifFL struct {
+	fl.Interface
+	db *DB
+}
+
+func (f *verifFL) ev(name string, a, b, c uint64) {
+	if h := VerifFLHook; h != nil {
+		h(f.db, name, a, b, c)
+	}
+}
+
+func (f *verifFL) Allocate(txid common.Txid, n int) common.Pgid {
+	id := f.Interface.Allocate(txid, n)
+	f.ev("alloc", uint64(txid), uint64(n), uint64(id))
+	return id
+}
+
+func (f *verifFL) Free(txid common.Txid, p *common.Page) {
+	f.ev("free", uint64(txid), uint64(p.Id()), uint64(p.Overflow()))
+	f.Interface.Free(txid, p)
+}
+
+func (f *verifFL) Rollback(txid common.Txid) {
+	f.ev("rollback", uint64(txid), 0, 0)
+	f.Interface.Rollback(txid)
+}
+
+func (f *verifFL) ReleasePendingPages() {
+	f.ev("release", 0, 0, 0)
+	f.Interface.ReleasePendingPages()
+}
+
+func (f *verifFL) AddReadonlyTXID(txid common.Txid) {
+	f.ev("addreader", uint64(txid), 0, 0)
+	f.Interface.AddReadonlyTXID(txid)
+}
+
+func (f *verifFL) RemoveReadonlyTXID(txid common.Txid) {
+	f.ev("removereader", uint64(txid), 0, 0)
+	f.Interface.RemoveReadonlyTXID(txid)
+}
+
+func (f *verifFL) Reload(p *common.Page) {
+	f.ev("reload", uint64(p.Id()), 0, 0)
+	f.Interface.Reload(p)
+}
+
+func (f *verifFL) NoSyncReload(ids common.Pgids) {
+	f.ev("nosyncreload", uint64(len(ids)), 0, 0)
+	f.Interface.NoSyncReload(ids)
+}
+
+func verifWrapFreelist(db *DB, f fl.Interface) fl.Interface {
+	return &verifFL{Interface: f, db: db}
+}
+
+// VerifFreelist drives a bare freelist backend (no DB) for allocator-only programs.
+type VerifFreelist struct {
+	f fl.Interface
+}
+
+func VerifNewFreelist(kind FreelistType) *VerifFreelist {
+	return &VerifFreelist{f: newFreelist(kind)}
+}
+
+func toPgids(ids []uint64) common.Pgids {
+	out := make(common.Pgids, len(ids))
+	for i, id := range ids {
+		out[i] = common.Pgid(id)
+	}
+	return out
+}
+
+func (v *VerifFreelist) Init(ids []uint64) { v.f.Init(toPgids(ids)) }
+func (v *VerifFreelist) Allocate(txid uint64, n int) uint64 {
+	return uint64(v.f.Allocate(common.Txid(txid), n))
+}
+func (v *VerifFreelist) Free(txid, id uint64, overflow uint32) {
+	v.f.Free(common.Txid(txid), common.NewPage(common.Pgid(id), common.LeafPageFlag, 0, overflow))
+}
+func (v *VerifFreelist) Rollback(txid uint64)     { v.f.Rollback(common.Txid(txid)) }
+func (v *VerifFreelist) AddReader(txid uint64)    { v.f.AddReadonlyTXID(common.Txid(txid)) }
+func (v *VerifFreelist) RemoveReader(txid uint64) { v.f.RemoveReadonlyTXID(common.Txid(txid)) }
+func (v *VerifFreelist) Release()                 { v.f.ReleasePendingPages() }
+func (v *VerifFreelist) FreeCount() int           { return v.f.FreeCount() }
+func (v *VerifFreelist) PendingCount() int        { return v.f.PendingCount() }
+func (v *VerifFreelist) Count() int               { return v.f.Count() }
+func (v *VerifFreelist) Freed(id uint64) bool     { return v.f.Freed(common.Pgid(id)) }
+func (v *VerifFreelist) EstimatedWritePageSize() int {
+	return v.f.EstimatedWritePageSize()
+}
+func (v *VerifFreelist) Copyall() []uint64 {
+	dst := make([]common.Pgid, v.f.Count())
+	v.f.Copyall(dst)
+	out := make([]uint64, len(dst))
+	for i, id := range dst {
+		out[i] = uint64(id)
+	}
+	return out
+}
+
+// WritePage serialises the list into a fresh buffer of EstimatedWritePageSize
+// bytes (rounded up to 8) and returns it.
+func (v *VerifFreelist) WritePage(id uint64) []byte {
+	sz := v.f.EstimatedWritePageSize() + 16
+	buf := make([]uint64, (sz+7)/8)
+	p := (*common.Page)(unsafe.Pointer(&buf[0]))
+	p.SetId(common.Pgid(id))
+	v.f.Write(p)
+	return unsafe.Slice((*byte)(unsafe.Pointer(&buf[0])), len(buf)*8)
+}
+
+func pageOf(b []byte) *common.Page {
+	buf := make([]uint64, (len(b)+7)/8+2)
+	bb := unsafe.Slice((*byte)(unsafe.Pointer(&buf[0])), len(buf)*8)
+	copy(bb, b)
+	return (*common.Page)(unsafe.Pointer(&buf[0]))
+}
+
+func (v *VerifFreelist) Read(b []byte)   { v.f.Read(pageOf(b)) }
+func (v *VerifFreelist) Reload(b []byte) { v.f.Reload(pageOf(b)) }
+func (v *VerifFreelist) NoSyncReload(ids []uint64) {
+	v.f.NoSyncReload(toPgids(ids))
+}
+
+// Pure size computations and internal state exported for correspondence checks.
+func (db *DB) VerifMmapSize(size int) (int, error)      { return db.mmapSize(size) }
+func (db *DB) VerifGrowSize(mmapSize, growSize int) int { return db.growSize(mmapSize, growSize) }
+func (db *DB) VerifDataSize() int                       { return db.datasz }
+func (db *DB) VerifPageSize() int                       { return db.pageSize }
+func (db *DB) VerifMeta() (txid, root, seq, freelist, pgid uint64) {
+	m := db.meta()
+	return uint64(m.Txid()), uint64(m.RootBucket().RootPage()), m.RootBucket().InSequence(), uint64(m.Freelist()), uint64(m.Pgid())
+}
+func (tx *Tx) VerifMeta() (txid, root, seq, freelist, pgid uint64) {
+	m := tx.meta
+	return uint64(m.Txid()), uint64(m.RootBucket().RootPage()), m.RootBucket().InSequence(), uint64(m.Freelist()), uint64(m.Pgid())
+}
+func (db *DB) VerifFreelistCopyall() []uint64 {
+	if db.freelist == nil {
+		return nil
+	}
+	dst := make([]common.Pgid, db.freelist.Count())
+	db.freelist.Copyall(dst)
+	out := make([]uint64, len(dst))
+	for i, id := range dst {
+		out[i] = uint64(id)
+	}
+	return out
+}
+func (db *DB) VerifFreed(id uint64) bool {
+	return db.freelist != nil && db.freelist.Freed(common.Pgid(id))
+}
